@@ -171,7 +171,8 @@ class C14(Check):
                    "obtained by an independent differentiator from those references.  log/lgamma are uninterpreted with solver-proved law "
                    "instances (e.g. log(k/(k+mu)) = log k - log(k+mu)); float constants within 1e-9.  Typed units: int64/float64 observation arrays with "
                    "Python-scalar (int, float, default) spread.  Outside the real-arithmetic claim, the fidelity pass also evaluates the real code at "
-                   "float stress points (observations x1000, predictions /20) against the reference log-density.")
+                   "float stress points (observations x1000, predictions /20) against the reference log-density.  The arrays a kernel returns are overwritten "
+                   "by the harness before the next call: loss, diff_loss, diff2Loss and residual must be unaffected.")
     stubs = ["scipy.stats.poisson.logpmf -> closed form y log mu - mu - lgamma(y+1) (argument roles asserted)", "scipy.special.gammaln -> lgamma UF"]
     assumptions = ["valid domain: y, yhat > 0 (integer y for count losses), spread > 0", "Normal/Square use the weights inside the residual; density identities are with unit weights",
                    "floats as reals"]
